@@ -85,6 +85,7 @@ static std::string gen(const std::string &prop, uint64_t base, uint64_t idx, boo
             bool cf = fn == "Tscf" || fn == "Ntscf";
             int pay = (int)r.range(0, 6) * 4;
             if ((fn == "Can" || fn == "CanBrief") && r.chance(0.6)) pay = 68;  // room for the message builders (64 bytes of payload + padding)
+            if (fn == "Vss" && r.chance(0.6)) pay = (int)(r.coin() ? 2048 : 300);  // room for Avtp_Vss_Pad (message lengths up to 2044 bytes)
             std::vector<std::pair<const BindFormat *, int>> subs;
             if (cf && r.chance(0.6)) {
                 int off = 0, ns = (int)r.range(1, 3);
@@ -138,12 +139,22 @@ static std::string gen(const std::string &prop, uint64_t base, uint64_t idx, boo
             const BindField *cfl = &f->fields[r.below(f->nfields)];
             if (cfl->ncset) { line(strf("op b=%d setc f=%s k=%u", b.id, cfl->name, (unsigned)r.below(cfl->ncset))); written[b.id].push_back(cfl->name); continue; }
         }
+        if (std::string(f->name) == "Vss" && b.pay >= 300 && r.chance(0.12)) {
+            // Avtp_Vss_Pad is a compound write as well: zeroed padding, acf_msg_length and pad fields for a message of the given length
+            unsigned maxlen = (unsigned)std::min<int>(2044, (int)f->spec_bytes + b.pay - 4);
+            unsigned len = (unsigned)(r.chance(0.4) ? (unsigned[]){12, 13, 255, 256, 1020, 1021, 1023, 1024, 2041, 2044}[r.below(10)] : r.range(12, maxlen));
+            if (len > maxlen) len = maxlen;
+            line(strf("op b=%d build kind=vsspad id=0x0 len=%u variant=0 dseed=0x1", b.id, len));
+            continue;
+        }
         if (b.pay >= 68 && r.chance(0.12)) {
             // the ACF-CAN message builders are compound writes: payload copy, identifier/EFF/FDF, length and pad fields, zeroed padding
             static const char *kinds[] = {"create", "create", "setpayload", "finalize"};
             unsigned len = (unsigned)(r.chance(0.3) ? (unsigned[]){0, 1, 3, 4, 5, 8, 12, 63, 64}[r.below(9)] : r.below(65));
             uint32_t bid = (uint32_t)(r.chance(0.4) ? (uint32_t[]){0, 1, 0x7ff, 0x800, 0x1fffffff, 0x20000000, 0xffffffffu}[r.below(7)] : r.next());
-            line(strf("op b=%d build kind=%s id=0x%x len=%u variant=%d dseed=0x%llx", b.id, kinds[r.below(4)], bid, len, (int)r.below(2), (unsigned long long)r.next()));
+            // (a data-less frame is also built with a null payload pointer)
+            line(strf("op b=%d build kind=%s id=0x%x len=%u variant=%d dseed=0x%llx%s", b.id, kinds[r.below(4)], bid, len, (int)r.below(2), (unsigned long long)r.next(),
+                      (len == 0 && r.coin()) ? " nullp=1" : ""));
             continue;
         }
         unsigned k = (unsigned)r.below(100);
@@ -500,6 +511,21 @@ static void exec(const std::string &text, bool verbose) {
             b.wr_seq[fl->name] = op_index; b.wr_task_seq[fl->name] = task_switches; b.wr_via[fl->name] = "ded";
             continue;
         }
+        if (what == "build" && kv.str("kind") == "vsspad") {
+            if (std::string(f->name) != "Vss" || b.parent >= 0) continue;
+            size_t len = kv.u64("len"), pad = (4 - len % 4) % 4;
+            if (len < f->spec_bytes || b.off + len + pad > a.size - kGuard) continue;
+            ev("build", strf("b=%d Vss kind=vsspad len=%zu", b.id, len));
+            DIRTY();
+            drv_vss_pad(pdu, (uint16_t)len);
+            memset(mpdu + len, 0, pad);
+            { const BindField *fl = find_field(f, "ACF_MSG_LENGTH"); if (fl) wire::set_bits(mpdu, fl->bit, fl->width, ((len + pad) / 4) & mask_w(fl->width)); }
+            { const BindField *fl = find_field(f, "PAD"); if (fl) wire::set_bits(mpdu, fl->bit, fl->width, pad & mask_w(fl->width)); }
+            per_entry["entry.build.vsspad"]++;
+            check_bytes("Vss.<build>:pad", strf("after Avtp_Vss_Pad for a message of %zu bytes", len));
+            b.has_last = false;
+            continue;
+        }
         if (what == "build") {
             std::string fmt = f->name, kind = kv.str("kind");
             bool brief = fmt == "CanBrief";
@@ -517,7 +543,7 @@ static void exec(const std::string &text, bool verbose) {
             auto m_payload = [&] { memcpy(mpdu + hdr, src.data(), len); };
             auto m_finalize = [&] { memset(mpdu + hdr + len, 0, pad); mset("ACF_MSG_LENGTH", (hdr + len + pad) / 4); mset("PAD", pad); };
             int bk = (kind == "setpayload" && !brief) ? 0 : kind == "finalize" ? 1 : 2;
-            uint8_t *srcp = src.data();
+            uint8_t *srcp = (len == 0 && kv.u64("nullp", 0)) ? nullptr : src.data();
             DIRTY();
             if (bk == 0) { drv_can_setpayload(pdu, srcp, (uint16_t)len); m_payload(); }
             else if (bk == 1) { if (brief) drv_canbrief_finalize(pdu, (uint16_t)len); else drv_can_finalize(pdu, (uint16_t)len); m_finalize(); }
@@ -652,7 +678,7 @@ int main(int argc, char **argv) {
              "write to a different field of the same quadlet";
     e.probes = {"probe.cross_quadlet_field_written", "probe.value_wider_than_field", "probe.relocation_between_write_and_read", "probe.legacy_write_current_read",
                 "probe.task_switch_between_write_and_read", "probe.acf_message_inside_control_pdu", "probe.second_view_of_same_header", "entry.set.gen", "entry.set.ded", "entry.set.leg",
-                "entry.get.gen", "entry.get.ded", "entry.get.leg", "entry.init.cur", "entry.init.legacy", "entry.fused", "entry.set.constant", "entry.build.create", "entry.build.finalize", "entry.build.setpayload", "value.derived",
+                "entry.get.gen", "entry.get.ded", "entry.get.leg", "entry.init.cur", "entry.init.legacy", "entry.fused", "entry.set.constant", "entry.build.create", "entry.build.finalize", "entry.build.setpayload", "entry.build.vsspad", "value.derived",
                 "probe.unaligned_placement"};
     e.real_components = {"libopen1722 + libopen1722custom objects built from /repo/src (working tree)", "call bindings generated from /repo/include at build time"};
     e.stub_components = {"callers (seeded histories)", "reference model: spec/fields.def + bit-at-a-time packer (spec/wire.h)"};
